@@ -93,7 +93,7 @@ func runC08(r *core.Run) {
 		"running/finished, LF/CRLF, junk before, text after the closing separator (none, short, > 16 KiB); negative variant with a section naming an unknown goroutine; " +
 		"distinct = hash of input; non-trivial = every case (>= 2 operations by construction)")
 	r.Assume("generator's reading of tsan's Go report format; 'by main goroutine', '[failed to restore the stack]' and location blocks are outside C08's statement")
-	n := r.N(150000, 600000)
+	n := r.N(150000, 3000000)
 	core.Parallel(n, workers(), func(i int) {
 		rr := core.NewRand(r.Seed, 8, uint64(i))
 		rc := &gen.RaceCfg{MaxOps: 6, MaxFrames: 12}
